@@ -95,7 +95,7 @@ func enumTrees(depth, width, nvars int) []*gtree {
 }
 
 func c03(c *Ctx) {
-	c.Rule = "exhaustive: all group trees of depth<=2, width<=2 (thorough: width<=3) over 2 (thorough: 3) boolean variables x keyword in {AND,OR,omitted} x all truth assignments x 4 placements (top level, nested, filter body, function argument), and once more at top level and as a filter body with every leaf spelled as an operand that is boolean by its data (First / Last / Index of an array of booleans, Equal(true), Not().Not()) against a truth-table oracle, and as a filter body over a null element with null tests as leaves; random: trees of depth<=5 with comparison leaves over random data. Non-trivial = the tree has at least one operand; distinct by (query, data)."
+	c.Rule = "exhaustive: all group trees of depth<=2, width<=2 (thorough: width<=3) over 2 (thorough: 3) boolean variables x keyword in {AND,OR,omitted} x all truth assignments x 4 placements (top level, nested, filter body, function argument), and once more at top level and as a filter body with every leaf spelled as an operand that is boolean by its data (First / Last / Index of an array of booleans, Equal(true), Not().Not()) against a truth-table oracle, and as a filter body over a null element with null tests as leaves; random: trees of depth<=5 with comparison leaves over random data.; filter bodies over arrays of 2..4 rows with leaves reading the element (@.v0 @.v1) or the root ($.w0 $.w1) in every mixture, four deep, truth-table oracle per row. Non-trivial = the tree has at least one operand; distinct by (query, data)."
 	c.Exhaust = true
 	nvars, width := 2, 2
 	if c.Thorough() {
